@@ -5,7 +5,7 @@ import copy
 
 import numpy as np
 
-from . import ref
+from . import ref, pristine
 from .core import Result, quiet, digest_of
 from .oracle import diff, fingerprint
 from .rng import H
@@ -101,9 +101,9 @@ def execute(plan, tape):
     fs, f_range = band['fs'], tuple(band['f_range'])
     sigs = np.array([build_signal(s, band) for s in plan['rows']])
     R = len(sigs)
-    pristine = sigs.copy()
+    sigs0 = sigs.copy()
 
-    with quiet():
+    with quiet(), pristine.active():
         refs = []
         for i in range(R):
             s, rs = row_settings(plan, i)
@@ -164,7 +164,7 @@ def execute(plan, tape):
             check_result(plan, res, out, refs, R)
             if res.vclass is None and bg is not None:
                 check_models(res, bg, out, sigs, fs, f_range, R)
-            d = diff(sigs, pristine)
+            d = diff(sigs, sigs0)
             if d and res.vclass is None:
                 res.violate('input-mutated', 'sigs', 'the caller\'s 2-D array was modified: ' + d)
 
